@@ -87,6 +87,7 @@ def run(ctx):
             ctx.disagreements.append({"suite": ln.split()[0], "request": ln[:300], "model": repr(mo)[:300], "impl": repr(impl)[:300]})
 
     # ---------------- (b) consumption
+    _batch = []
     for _ in range(n_sets):
         n = rng.randrange(1, 7)
         ks, names = make_set(rng, n, private=False)
@@ -130,7 +131,9 @@ def run(ctx):
                             if kid_mode in ("unknown", "absent") and impl[1] != "InvalidKeyIdError":
                                 return f"kid {kid_mode}: expected InvalidKeyIdError, got {impl[1]}"
                             return None
-                        J.run_verify_cases(ctx, "keyset-consume", [c2], check_c01=True, expect=expect, prop="C14")
+                        c2.expect = expect
+                        _batch.append(c2)
+    J.run_verify_cases(ctx, "keyset-consume", _batch, check_c01=True, prop="C14")
 
     # ---------------- (c) production with key sets (random.choice on a tape)
     tape = TapeRandom()
